@@ -198,7 +198,7 @@ def auto_rules(text, fired):
 # ----------------------------------------------------------------------------------------------
 # R6: scratchpad binding lifting;  R11: loop-header desugaring of slice iterator adapters
 
-R6_LET = re.compile(r'[ \t]*let\s+(?:mut\s+)?(?:\w+|\([^)]*\))\s*=\s*scratchpad\s*\.\s*\w+\(\s*&?self\.\w+\s*\);[ \t]*\n?')
+R6_LET = re.compile(r'[ \t]*let\s+(?:mut\s+)?(?:\w+|\([^)]*\))\s*=\s*scratchpad\s*\.[^;]*;[ \t]*\n?')
 R6_SCALAR = re.compile(r'scratchpad\s*\.\s*get_scalar\(\s*&self\.(\w+)\s*\)')
 
 
@@ -214,8 +214,8 @@ def rule_r6(text, newsig, fired):
     def drop(mo):
         n[0] += 1
         return keep_lines(mo.group(0), '')
-    text = R6_LET.sub(drop, text)
     text, k = R6_SCALAR.subn(lambda mo: mo.group(1), text)
+    text = R6_LET.sub(drop, text)
     fired['R6'] = fired.get('R6', 0) + 1 + n[0] + k
     if 'scratchpad' in text:
         raise GenError('R6: scratchpad still referenced after lifting')
@@ -232,6 +232,7 @@ def _bind(pat, expr):
 R11_ZIP_ENUM = re.compile(r'for\s*\(\s*(\w+)\s*,\s*\(\s*(&?\w+)\s*,\s*(&?\w+)\s*\)\s*\)\s*in\s+(\w+)\.iter\(\)\.zip\((\w+)\.iter\(\)\)\.enumerate\(\)\s*\{')
 R11_ZIP = re.compile(r'for\s*\(\s*(&?\w+)\s*,\s*(&?\w+)\s*\)\s*in\s+(\w+)\.iter\(\)\.zip\((\w+)\.iter\(\)\)\s*\{')
 R11_ENUM = re.compile(r'for\s*\(\s*(\w+)\s*,\s*(&?\w+)\s*\)\s*in\s+(\w+)\.iter\(\)\.enumerate\(\)\s*\{')
+R11_TAKE_ENUM = re.compile(r'for\s*\(\s*(\w+)\s*,\s*(&?\w+)\s*\)\s*in\s+(\w+)\.iter\(\)\.take\(([^{}]*?)\)\.enumerate\(\)\s*\{')
 R11_REF = re.compile(r'for\s+&(\w+)\s+in\s+(\w+)\.iter\(\)\s*\{')
 R11_PLAIN = re.compile(r'for\s+(\w+)\s+in\s+(\w+)\.iter\(\)\s*\{')
 
@@ -248,6 +249,7 @@ def rule_r11(text, fired):
         m.group(4), m.group(5), m.group(1), _bind(m.group(2), m.group(4) + '[vx_k]'), _bind(m.group(3), m.group(5) + '[vx_k]'))), text)
     text = R11_ZIP.sub(c(lambda m: 'for vx_k in 0..vx_min(%s.len(), %s.len()) { %s %s' % (
         m.group(3), m.group(4), _bind(m.group(1), m.group(3) + '[vx_k]'), _bind(m.group(2), m.group(4) + '[vx_k]'))), text)
+    text = R11_TAKE_ENUM.sub(c(lambda m: 'for %s in 0..vx_min(%s.len(), %s) { %s' % (m.group(1), m.group(3), m.group(4), _bind(m.group(2), '%s[%s]' % (m.group(3), m.group(1))))), text)
     text = R11_ENUM.sub(c(lambda m: 'for %s in 0..%s.len() { %s' % (m.group(1), m.group(3), _bind(m.group(2), '%s[%s]' % (m.group(3), m.group(1))))), text)
     text = R11_REF.sub(c(lambda m: 'for vx_k in 0..%s.len() { let %s = %s[vx_k];' % (m.group(2), m.group(1), m.group(2))), text)
     text = R11_PLAIN.sub(c(lambda m: 'for vx_k in 0..%s.len() { let %s = &%s[vx_k];' % (m.group(2), m.group(1), m.group(2))), text)
